@@ -1370,7 +1370,7 @@ def run(ctx: C.Ctx) -> None:
         c.pop("name", None)
         check_case(ctx, c, True, batch, "directed")
     flush(ctx, batch)
-    n = ctx.n(1500, 40000)
+    n = ctx.n(1200, 40000)
     for i in range(n):
         if not ctx.time_left():
             ctx.notes.append("time budget reached after %d generated cases" % i)
